@@ -5,6 +5,22 @@ HERE = os.path.dirname(os.path.dirname(os.path.abspath(__file__)))
 ALL = ["C%02d" % i for i in range(1, 21)]
 
 CHECKS = {
+ "C19": dict(
+  category="model_checking",
+  text="Gen.tla: the output file is absent or present; Gen(opts) over the full option matrix (9 parse kinds incl. infer x 8 emit kinds "
+       "x name template x import inference x --prepend x --imports-from-file x output absent/present x 1..3 entries = 6912 "
+       "records); TLC checks NoClobber and Exports (ideal) and their as-built weakening where every non-working (parse, emit) cell "
+       "is a named deviation with its exact outcome. Binding: every matrix cell at least once plus a seeded sample (quick) / all "
+       "records (thorough) are concretised -- the input module or schema file is produced by the real emitters from gamma-"
+       "interfaces -- and the real gen command runs in-process under the audit-hook recorder. Verdicts: refusal leaves the "
+       "existing file byte-identical and opens nothing for writing; otherwise the output compiles, defines exactly the templated "
+       "symbols, __all__ lists exactly those names, every symbol parses back to its entry's interface, with inference on every "
+       "typing/SQLAlchemy name used is imported, and nothing but the named output is written.",
+  design_ref="DESIGN.md section 4, C19",
+  note="Trusted: gamma; entries are interfaces on which the emit kind's single-hop round trip is exact (C02). Only the class and "
+       "argparse emit kinds produce a module that satisfies the statement today; the other cells are listed findings.",
+  technique="TLA+ option-matrix model checked by TLC; every record replayed through the real command, output judged with ast/compile "
+            "and the real parsers, effects via audit hooks"),
  "C20": dict(
   category="model_checking",
   text="Exmod.tla: the file system as a set of paths, a package tree of 1..3 levels, Exmod(opts) with dry-run, recursion, "
